@@ -228,6 +228,12 @@ class _SocksMachine(object):
         # "the I/O-doing" stuff
         self._sender = sender
         self._when_done.fire(sender)
+        # anything that arrived in the same segment as the reply
+        # already belongs to the application protocol
+        if self._data:
+            d = self._data
+            self._data = b''
+            sender.dataReceived(d)
 
     @_machine.output()
     def _domain_name_resolved(self, domain):
